@@ -225,7 +225,7 @@ class C18(BtProp):
         xor = spec[3][0]
         k = int(xor[2][1])
         options = spec[3][1][3]
-        subs = [opt[3][1][1] for opt in options]
+        subs = [opt[3][-1][1] for opt in options]      # the option's subtree is the last child of its sequence
         chosen = None
         prevW = {}
         prev = None
